@@ -78,3 +78,37 @@ Definition rfc_demand (s : setb) (bytes : list byte) : bool :=
       | SUndefined => false
       end
   end.
+
+(* Hypotheses on a set of a case, shared by the C02 and C09 oracles' theorems: built with a
+   single PrepareSet (records of the set's own kind; a template set's header written by
+   PrepareSet), and every value of a data record a Go value of its element's kind. *)
+Definition homogeneous (s : setb) : bool :=
+  forallb (fun r => match s_type s with SData => rec_is_data r | STemplate => negb (rec_is_data r) | SUndefined => true end) (s_recs s).
+Definition prepared (s : setb) : bool :=
+  match s_type s with STemplate => N.eqb (hdr_id s) 2 | _ => true end.
+Definition elem_typed (e : ie) (v : value) : bool :=
+  rfc_width_ok e &&
+  match ie_dt e, v with
+  | OctetArray, VOct o => negb (N.eqb (ie_len e) 0) || Nat.eqb (List.length (obytes o)) 0
+  | Unsigned8, VU8 n => n <? 2 ^ 8
+  | Unsigned16, VU16 n => n <? 2 ^ 16
+  | Unsigned32, VU32 n => n <? 2 ^ 32
+  | Unsigned64, VU64 n => n <? 2 ^ 64
+  | Signed8, VI8 z => in_range_z 1 z
+  | Signed16, VI16 z => in_range_z 2 z
+  | Signed32, VI32 z => in_range_z 4 z
+  | Signed64, VI64 z => in_range_z 8 z
+  | Float32, VF32 n => n <? 2 ^ 32
+  | Float64, VF64 n => n <? 2 ^ 64
+  | Boolean, VBool _ => true
+  | MacAddress, VMac _ => true
+  | String_, VStr _ => true
+  | DateTimeSeconds, VDts n => n <? 2 ^ 32
+  | DateTimeMilliseconds, VDtms n => n <? 2 ^ 64
+  | Ipv4Address, VIP _ => true
+  | Ipv6Address, VIP _ => true
+  | _, _ => false
+  end.
+Definition set_typed (s : setb) : bool :=
+  forallb (fun r => negb (rec_is_data r) || forallb (fun ev => elem_typed (fst ev) (snd ev)) (rec_els r)) (s_recs s).
+Definition case_set_ok (s : setb) : bool := homogeneous s && prepared s && set_typed s.
